@@ -234,7 +234,16 @@ fn reading_lattice_build(s: TimeScale, leap: &[(i64, i64)]) -> Vec<i128> {
 pub fn rand_reading(r: &mut Rng, s: TimeScale, lat: &[i128]) -> i128 {
     let (lo, hi) = reading_range(s, 1, 9999);
     match r.below(100) {
-        0..=39 => r.range_i128(lo, hi),
+        0..=36 => r.range_i128(lo, hi),
+        37..=39 => {
+            // a time of day exactly one unit (second, minute, hour ... and their neighbours 59 / 61) after the start or before
+            // the end of the day, to the nanosecond or one off: where a split of the time of day - or of its complement, for
+            // days counted backwards - changes its number of fields
+            let day = r.range_i128(lo / NS_D, hi / NS_D) * NS_D - greg_zero_ns(s).rem_euclid(NS_D);
+            let off = *r.pick(&[NS_S, 59 * NS_S, NS_MIN, 61 * NS_S, 59 * NS_MIN, NS_H, 61 * NS_MIN, 2 * NS_MIN, 12 * NS_H, 23 * NS_H, 1_000, 1_000_000]);
+            let tod = if r.bool() { off } else { NS_D - off };
+            (day + tod + r.range_i64(-1, 1) as i128).clamp(lo, hi)
+        }
         40..=64 => {
             // modern era
             let (a, b) = reading_range(s, 1950, 2060);
